@@ -270,7 +270,14 @@ impl Property for C13 {
     fn max_shards(&self) -> usize {
         16
     }
+    fn fuzz(&self) -> Option<crate::FuzzSpec> {
+        Some(crate::FuzzSpec { label: "c13-history", max_len: 200, runs: 150000 })
+    }
     fn run(&self, ctx: &mut Ctx) {
+        'enumerations: {
+        if ctx.fuzzing() {
+            break 'enumerations;
+        }
         let max_len = ctx.tier.pick(4, 5);
         let docs = strings_upto(max_len);
         let reps = strings_upto(2);
@@ -305,6 +312,7 @@ impl Property for C13 {
         }
         ctx.space("single edits: documents x position pairs x replacements", space);
         ctx.stats.nt_disjoint += local.len() as u64;
+        }
 
         let cases = ctx.tier.pick(150_000, 3_000_000);
         ctx.run_streams("c13-history", cases, 200, |ctx, bytes| {
